@@ -2,7 +2,7 @@
 # Builds the framework from files on disk only (offline): Coq theories (full .vo build) and the harness.
 set -e
 cd /verif/coq
-coq_makefile -f _CoqProject -o Makefile > /dev/null
+./mkproject.sh
 timeout 3000 make -j16 > /verif/work-setup-coq.log 2>&1 || { tail -30 /verif/work-setup-coq.log; exit 1; }
 cd /verif/harness
 [ -f Cargo.lock ] || cp /repo/Cargo.lock Cargo.lock
